@@ -33,7 +33,8 @@ def run(R, job):
         def block(depth):
             k = r.random()
             if depth <= 0 or k < 0.35:
-                v = r.choice(["text", 3, None, Ellipsis, Rp(), core.Tag("span"), core.TagList("a"), {"bad": 1}, object()])
+                import collections
+                v = r.choice(["text", 3, None, Ellipsis, Rp(), core.Tag("span"), core.TagList("a"), {"bad": 1}, object(), b"<raw bytes>", range(3), collections.deque(["x"]), ["in", [b"list"]], 2.5])
                 desc.append(f"display({type(v).__name__})")
                 target = active[-1] if active else None
                 ok = True
@@ -43,14 +44,14 @@ def run(R, job):
                     ok = False
                 if target is None:
                     return
-                acceptable = isinstance(v, (str, int, core.Tag, core.TagList, Rp))
+                acceptable = isinstance(v, (str, int, float, core.Tag, core.TagList, Rp))
                 if v is None or v is Ellipsis:
                     if not ok: problems.append("None/Ellipsis raised")
                 elif acceptable:
                     if not ok: problems.append(f"valid value {type(v).__name__} rejected")
                     if isinstance(v, Rp): expected_kids[id(target)].append(("html", "<repr/>"))
                     elif isinstance(v, core.TagList): expected_kids[id(target)].extend(("obj", x) for x in v)
-                    elif isinstance(v, int): expected_kids[id(target)].append(("obj", str(v)))
+                    elif isinstance(v, (int, float)): expected_kids[id(target)].append(("obj", str(v)))
                     else: expected_kids[id(target)].append(("obj", v))
                 else:
                     if ok: problems.append(f"invalid value {type(v).__name__} accepted")
